@@ -18,7 +18,7 @@ def units(tier):
             for ic in (True, False):
                 us.append(dict(h="any_text", n=n, std=std, ic=ic, cost=n))
     us.append(dict(h="codec_handler", cost=0))
-    base = PG.base_programs() if q else PG.programs("quick")
+    base = PG.base_programs()
     rot = 0
     for p in base:
         src = G.program_text(p, {})
@@ -48,11 +48,11 @@ def meta(tier):
     return dict(bounds=dict(arbitrary_text_len=3 if q else 4, alphabet="tab, newline, printable ASCII (97 characters) for every symbolic position",
                             mutation="one character position of a catalogue program replaced by / preceded by a symbolic character, or deleted/duplicated",
                             positions="first, middle, last character and end of every line" if q else "every character position of every line",
-                            programs=len(PG.base_programs()) if q else len(PG.programs("quick"))),
+                            programs=len(PG.base_programs())),
                 assumptions=["the C-level UTF-8 decoder and open() are not encoded; only the registered Python error handler is",
                              "SystemExit is intercepted by the harness (it is an observable, reported as a violation)",
                              "a path running longer than 20 s is reported as non-termination and confirmed by a native run with a 60 s limit"],
-                budget_s=420 if q else 3300, unit_budget_s=120 if q else 900, path_timeout=20, native_timeout=60)
+                budget_s=420 if q else 2400, unit_budget_s=120 if q else 900, path_timeout=20, native_timeout=60)
 
 
 ALLOWED = ("ok", "FortranSyntaxError")
